@@ -33,6 +33,7 @@ RULE = ("cases = (table text, flavor, setup types): tables of 1-8 items (command
         "chains of 6-9 branches (3 %), declareOptions written as options (k=v, k = v, quoted) whose pairs the generator "
         "knows; a lone quoted argument with escaped quotes / commas / runs of blanks, padded or not, escaped quotes next to "
         "the opening / closing quote and in the first / last argument (floor of 10 cases per shape); 400 setup-type cases "
+        "(arguments also use the seven older variable names, ${UPS_PROD_DIR} ..., which denote the modern ones) "
         "(a --type option as `setup` / `eups -T` / a caller pass it, words from the valid types and an invalid one, blank and "
         "comma separators, --exact, a table with TYPE conditions, followExact for Table.dependencies).  "
         "A case is non-trivial when its table has a conditional chain, a legacy group or a quoted argument, or is an "
@@ -81,6 +82,18 @@ def split_words(s):
     return out
 
 
+# the older names of the eups variables, which a table may still use: written -> delivered (documented synonyms)
+SYNONYMS = {"${PROD_DIR}": "${PRODUCT_DIR}", "${UPS_PROD_DIR}": "${PRODUCT_DIR}", "${UPS_PROD_FLAVOR}": "${PRODUCT_FLAVOR}",
+            "${UPS_PROD_NAME}": "${PRODUCT_NAME}", "${UPS_PROD_VERSION}": "${PRODUCT_VERSION}", "${UPS_DB}": "${PRODUCTS}",
+            "${UPS_UPS_DIR}": "${UPS_DIR}"}
+
+
+def modern(v):
+    for old_, new_ in SYNONYMS.items():
+        v = v.replace(old_, new_)
+    return v
+
+
 def whole_list_quoted(c):
     """The classic spelling `cmd("word word …")`: the argument text is exactly one pair of quotes with no quote
     (escaped or not) between them.  With an escaped quote inside, or blanks between the parentheses and the quotes,
@@ -100,6 +113,7 @@ def denote_cmd(c):
         args = split_words(written[0]["v"])      # quotes around the whole list: the list of words
     else:
         args = [a["v"] for a in written]
+    args = [modern(a) for a in args]
     if cmd == "envSet":
         args = [args[0], " ".join(args[1:])]
     if cmd == "envUnset":
@@ -180,7 +194,8 @@ def denote_opts(items, flavor, types):
 # ---- generator -------------------------------------------------------------------------------------
 
 PLAIN = ["a", "b/c", "${PRODUCT_DIR}/bin", "x.y", "-j", "1.2", "FOO_BAR", ">=", "2.0", "/opt/p-1/lib", "lib64", "$?{X}/y",
-         "[>=", "1.0]", "a:b", "v1_2+3", "(x)"]
+         "[>=", "1.0]", "a:b", "v1_2+3", "(x)",
+         "${PROD_DIR}/lib", "${UPS_PROD_DIR}/bin", "${UPS_PROD_FLAVOR}", "${UPS_PROD_NAME}-${UPS_PROD_VERSION}", "${UPS_DB}", "${UPS_UPS_DIR}/x"]
 VARNAMES = ["PATH", "LD_LIBRARY_PATH", "FOO", "PYTHONPATH", "X_Y"]
 PRODS = ["python", "cfitsio", "afw", "doxygen", "base"]
 OPT_KEYS = ["flavor", "name", "version", "x_y"]
@@ -460,6 +475,10 @@ def table_features(items):
         for c in cmds:
             if "opts" in c:
                 f.add("declare_options")
+            for a in c["args"]:
+                for syn in SYNONYMS:
+                    if syn in a["v"]:
+                        f.add("synonym=" + syn)
             if any(a["q"] for a in c["args"]):
                 f.add("quoted_arg")
             if len(c["args"]) > 1 and c["args"][0]["q"] and c["args"][-1]["q"]:
@@ -1344,7 +1363,7 @@ def evaluate_setuptype(ctx, cases):
                          % (json.dumps(c["expect_deptypes"]), json.dumps(io_["deptypes"])))
 
 
-FLOORS_PRESENT = ("default_product=name, add=None", "default_product=name+version+tag, add=None", "default_product=name, add=False",
+FLOORS_PRESENT = tuple("feature=synonym=" + k for k in SYNONYMS) + ("default_product=name, add=None", "default_product=name+version+tag, add=None", "default_product=name, add=False",
                   "default_product=none, add=None", "feature=else_if", "feature=else", "feature=empty_branch", "feature=quoted_arg", "feature=legacy",
                   "feature=cond_depth=2", "types=0", "types=2", "feature=first_and_last_quoted",
                   "feature=declare_options", "declare_options=some", "feature=branches>=8")
